@@ -120,7 +120,10 @@ def solve_scipy(
     obj_fn = cache["obj_fn"]
     grad_fn = cache["grad_fn"]
     scipy_constraints = cache["scipy_constraints"]
-    bounds = cache["bounds"]
+    # Bounds are mutable attributes of the variables: read them at solve time so that a
+    # bound changed after an earlier solve is honoured (the compiled callables do not depend on them)
+    bounds = _current_bounds(variables)
+    cache["bounds"] = bounds
 
     def objective(x: np.ndarray) -> float:
         return float(obj_fn(x))
@@ -324,6 +327,16 @@ def _compute_initial_point(
     return x0
 
 
+def _current_bounds(variables: list) -> list[tuple[float, float]]:
+    """Variable bounds as (lb, ub) pairs with infinities for missing bounds."""
+    bounds = []
+    for v in variables:
+        lb = v.lb if v.lb is not None else -np.inf
+        ub = v.ub if v.ub is not None else np.inf
+        bounds.append((lb, ub))
+    return bounds
+
+
 def _build_solver_cache(problem: Problem, variables: list) -> dict[str, Any]:
     """Build and cache compiled callables for the solver.
 
@@ -356,12 +369,7 @@ def _build_solver_cache(problem: Problem, variables: list) -> dict[str, Any]:
     cache["grad_fn"] = compile_jacobian([obj_expr], variables)
 
     # Build bounds
-    bounds = []
-    for v in variables:
-        lb = v.lb if v.lb is not None else -np.inf
-        ub = v.ub if v.ub is not None else np.inf
-        bounds.append((lb, ub))
-    cache["bounds"] = bounds
+    cache["bounds"] = _current_bounds(variables)
 
     # Build constraints for SciPy
     scipy_constraints = []
